@@ -153,6 +153,47 @@ fn over_the_wire(r: &mut hvcommon::report::Report, tree: &staticlab::Tree, root:
                 }
             }
         }
+        // a request that has to wait in the pool's queue: both workers are held by idle keep-alive connections for
+        // 400 ms, then released; the queued request must still be answered, with the file intact
+        if timeout.is_none() {
+            let small: Vec<&(String, Vec<u8>)> = tree.files.iter().filter(|f| f.0.is_ascii() && !f.0.contains(['?', '#', ' ', '%', ':']) && !f.0.contains("..") && f.1.len() < 4096).collect();
+            if small.len() >= 2 {
+                for round in 0..2 {
+                    let hold: Vec<Option<Conn>> = (0..2)
+                        .map(|_| {
+                            let mut c = Conn::open(addr).ok()?;
+                            c.s.write_all(format!("GET /d/{} HTTP/1.1\r\nHost: hv\r\nConnection: keep-alive\r\n\r\n", small[0].0).as_bytes()).ok()?;
+                            c.read_response(Duration::from_secs(10)).ok()??;
+                            Some(c)
+                        })
+                        .collect();
+                    if hold.iter().any(|h| h.is_none()) {
+                        r.inconclusive("C06 wire: could not occupy both workers with keep-alive connections");
+                        break;
+                    }
+                    let (rel, content) = small[1 + round % (small.len() - 1)];
+                    r.eval();
+                    r.count("over_the_wire_requests", 1);
+                    let mut c = match Conn::open(addr) {
+                        Ok(c) => c,
+                        Err(_) => break,
+                    };
+                    let _ = c.s.write_all(format!("GET /d/{} HTTP/1.1\r\nHost: hv\r\nConnection: close\r\n\r\n", rel).as_bytes());
+                    std::thread::sleep(Duration::from_millis(400));
+                    drop(hold);
+                    let what = format!("GET /d/{} queued for 400 ms behind two idle keep-alive connections on a 2-worker app", rel);
+                    match c.read_response(Duration::from_secs(15)) {
+                        Ok(Some(m)) if m.status() == 200 && m.body == *content => {
+                            r.count("over_the_wire_files_intact", 1);
+                            r.count("over_the_wire_queued_requests_answered", 1);
+                        }
+                        Ok(Some(m)) => r.violation("C06/wire:not-intact", format!("{}: status {}, {} body bytes", what, m.status(), m.body.len()), J::s(rel), vec!["c06".to_string(), "--seed".into(), seed.to_string()]),
+                        Ok(None) => r.violation("C06/wire:not-served", format!("{}: no response at all (eof={})", what, c.eof), J::s(rel), vec!["c06".to_string(), "--seed".into(), seed.to_string()]),
+                        Err(e) => r.violation("C06/wire:not-intact", format!("{}: response incomplete: {}", what, e.chars().take(120).collect::<String>()), J::s(rel), vec!["c06".to_string(), "--seed".into(), seed.to_string()]),
+                    }
+                }
+            }
+        }
         tx.send(()).ok();
     }
 }
